@@ -26,7 +26,7 @@ for c in man['checks']:
     cap='no' if tc.get('exhaustive',True) not in (False,) else 'yes: '+str(tc.get('cap_note',''))[:80]
     kf=(t or q or {}).get('known_findings_observed',[])
     rows.append(f"| {i} | {c['level_claimed']} | {cell(q)} | {cell(t)} | {st} | {cap} | {len(kf)} |")
-    cvv=(t or q or {}).get('coverage',{}); rule=cvv.get('rule','')+(' '+cvv['also'] if cvv.get('also') else '')
+    cvv=(t or q or {}).get('coverage',{}); rule=cvv.get('rule','')+''.join(' '+str(cvv[k]) for k in ('also','also_round2','also_later') if cvv.get(k))
     details.append(f"**{i}** ({c['level_claimed']}; {c['technique']}). {rule}\n")
 block='\n'.join(rows)+'\n\nWhat each check enumerates and asserts, as written by the check itself into its evidence file:\n\n'+'\n'.join(details)
 s=open(f'{V}/DESIGN.md').read()
